@@ -870,6 +870,23 @@ func Worker(args []string) int {
 	if len(args) >= 1 && args[0] == "one" {
 		return workerOne(args[1:])
 	}
+	if len(args) >= 2 && args[0] == "c17count" {
+		cs := c17Cases(args[1])
+		by := map[int]int{}
+		big := map[int]int{}
+		for _, a := range cs {
+			k := a.Enc
+			if k >= 100 {
+				k = 100
+			}
+			by[k]++
+			if a.Len > 100000 {
+				big[k]++
+			}
+		}
+		fmt.Println(len(cs), by, "big:", big)
+		return 0
+	}
 	if len(args) >= 3 && args[0] == "list" {
 		for i, j := range e3Jobs(args[1], args[2]) {
 			fmt.Printf("%d kind=%d seed=%s(%d bytes, header %d) part %d/%d\n", i, j.Kind, allSeeds()[j.Seed].Name, len(allSeeds()[j.Seed].Data), allSeeds()[j.Seed].Header, j.Part, j.Parts)
@@ -997,13 +1014,13 @@ func setAddressSpaceLimit(n uint64) {
 }
 
 func workerOne(args []string) int {
+	if len(args) >= 2 && args[0] == "C17" {
+		return c17One(args)
+	}
 	if len(args) < 3 {
 		return 2
 	}
 	prop := args[0]
-	if prop == "C17" {
-		return c17One(args[1:])
-	}
 	entry, _ := strconv.Atoi(args[1])
 	raw, err := os.ReadFile(args[2])
 	if err != nil {
